@@ -374,8 +374,11 @@ func genGenCase(t *rapid.T, prop string) *genCase {
 	gc := &genCase{mutation: map[string]string{}, hdrLabel: map[string]string{}, mode: "base"}
 	o := DefaultOpts()
 	o.PWrap = 0.15
-	switch prop {
-	case "C14":
+	illFormed := prop == "C14" || (prop == "C13" && uniform(t, "illformed", 4) == 0)
+	switch {
+	case illFormed:
+		// C13 also quantifies over type-correct but ill-formed inputs: the
+		// tool must answer with diagnostics, never with a crash
 		o.PParallel = 0
 		o.PPred = 0.35
 		// one flow per file so that verdicts are per file
@@ -542,6 +545,13 @@ func runGenCase(gc *genCase, keepDir *string) *genOutcome {
 	}
 	if crashed(out, code) {
 		add("C13", "the cff tool crashed (exit %d) on a type-correct package:\n%s", code, tailStr(out, 1500))
+		for _, f := range gc.pkg.Files {
+			for _, s := range f.Progs {
+				if s.Kind == "flow" && len(WellFormed(s)) > 0 {
+					add("C14", "ill-formed flow in %s (%s: %v) was not rejected with a diagnostic: the tool crashed", f.Name, gc.mutation[f.Name], WellFormed(s))
+				}
+			}
+		}
 		return oc
 	}
 	after := dirSnapshot(mod)
